@@ -363,6 +363,8 @@ Definition has (fs : list (string * string)) (k : string) : bool :=
   match fld fs k with Some _ => true | None => false end.
 Definition is_const (fs : list (string * string)) (k : string) (n : string) : bool :=
   match fld fs k with Some v => v =? ("const " ++ n) | None => false end.
+Definition is_expr (fs : list (string * string)) (k : string) : bool :=
+  match fld fs k with Some v => v =? "expr" | None => false end.
 Definition only (fs : list (string * string)) (allowed : list string) : bool :=
   forallb (fun kv => existsb (String.eqb (fst kv)) allowed) fs.
 
@@ -370,18 +372,19 @@ Definition literal_ok (l : string * string * list (string * string)) : bool :=
   let '(pkg, typ, fs) := l in
   if (pkg =? "exporter") && (typ =? "tls.Config") then
     only fs ["Certificates"; "MinVersion"; "RootCAs"; "ServerName"] &&
-    has fs "RootCAs" && has fs "ServerName" && is_const fs "MinVersion" "771"
+    is_expr fs "RootCAs" && is_expr fs "ServerName" && is_const fs "MinVersion" "771" &&
+    (negb (has fs "Certificates") || is_expr fs "Certificates")
   else if (pkg =? "collector") && (typ =? "tls.Config") then
     only fs ["Certificates"; "ClientAuth"; "ClientCAs"; "MinVersion"] &&
-    has fs "Certificates" && is_const fs "MinVersion" "771" &&
-    Bool.eqb (has fs "ClientAuth") (has fs "ClientCAs") &&
+    is_expr fs "Certificates" && is_const fs "MinVersion" "771" &&
+    Bool.eqb (has fs "ClientAuth") (is_expr fs "ClientCAs") && Bool.eqb (has fs "ClientAuth") (has fs "ClientCAs") &&
     (negb (has fs "ClientAuth") || is_const fs "ClientAuth" "4")
   else if (pkg =? "exporter") && (typ =? "dtls.Config") then
     only fs ["ExtendedMasterSecret"; "RootCAs"; "ServerName"] &&
-    has fs "RootCAs" && has fs "ServerName" && is_const fs "ExtendedMasterSecret" "1"
+    is_expr fs "RootCAs" && is_expr fs "ServerName" && is_const fs "ExtendedMasterSecret" "1"
   else if (pkg =? "collector") && (typ =? "dtls.Config") then
     only fs ["Certificates"; "ClientCAs"; "ExtendedMasterSecret"] &&
-    has fs "Certificates" && has fs "ClientCAs" && is_const fs "ExtendedMasterSecret" "1"
+    is_expr fs "Certificates" && is_expr fs "ClientCAs" && is_const fs "ExtendedMasterSecret" "1"
   else false.
 
 Definition class_present (pkg typ : string) : bool :=
